@@ -15,6 +15,7 @@ From SCC Require Import Model.RunFmt.
 From SCC Require Import Model.RunHeapOps.
 From SCC Require Import Model.RunC01.
 From SCC Require Import Model.RunWtStages.
+From SCC Require Import Model.RunHeapLock.
 Open Scope string_scope.
 
 Definition dispatch (cmd : string) (input : string) : string :=
@@ -44,5 +45,6 @@ Definition dispatch (cmd : string) (input : string) : string :=
   | "check" => run_check input
   | "fmt" => run_fmt input
   | "heapops-x86" => run_heapops_x86 input
+  | "heaplock-x86" => run_heaplock_x86 input
   | _ => "BAD - unknown command " ++ cmd ++ nl
   end.
